@@ -119,6 +119,8 @@ func c14Hand() []c14Spec {
 	attach0 := sop("attach", 0)
 	base := []SOp{attach0, sop("walk", 0, p9p.Fid(1), []string{"a", "b"}), sop("open", 1, p9p.ORDWR)}
 	dir1 := []SOp{attach0, sop("walk", 0, p9p.Fid(1), []string{"a"})}
+	two := []SOp{attach0, sop("walk", 0, p9p.Fid(1), []string{"a"}), sop("walk", 0, p9p.Fid(2), []string{"a"})}
+	three := append(append([]SOp{}, two...), sop("walk", 0, p9p.Fid(3), []string{"a"}))
 	return []c14Spec{
 		{Name: "clunk|read", Setup: base, Tasks: [][]SOp{{sop("clunk", 1)}, {sop("read", 1)}}},
 		{Name: "read|read", Setup: base, Tasks: [][]SOp{{sop("read", 1)}, {sop("read", 1)}}},
@@ -138,6 +140,12 @@ func c14Hand() []c14Spec {
 		{Name: "create|stat", Setup: dir1, Tasks: [][]SOp{{sop("create", 1, "n", uint32(0644), p9p.ORDWR)}, {sop("stat", 1)}}},
 		{Name: "createdir|clunk", Setup: dir1, Tasks: [][]SOp{{sop("create", 1, "n", uint32(p9p.DMDIR|0755), p9p.OREAD)}, {sop("clunk", 1)}}},
 		{Name: "read,clunk|stat,walk", Setup: base, Tasks: [][]SOp{{sop("read", 1), sop("clunk", 1)}, {sop("stat", 1), sop("walk", 0, p9p.Fid(1), []string{"c"})}}},
+		// collisions across two bound fids: a walk names the other fid as its target
+		{Name: "walk12|walk21/both-bound", Setup: two, Tasks: [][]SOp{{sop("walk", 1, p9p.Fid(2), []string{})}, {sop("walk", 2, p9p.Fid(1), []string{})}}},
+		{Name: "walk12[b]|walk21[d]/both-bound", Setup: two, Tasks: [][]SOp{{sop("walk", 1, p9p.Fid(2), []string{"b"})}, {sop("walk", 2, p9p.Fid(1), []string{"d"})}}},
+		{Name: "walk12|clunk2/both-bound", Setup: two, Tasks: [][]SOp{{sop("walk", 1, p9p.Fid(2), []string{})}, {sop("clunk", 2)}}},
+		{Name: "walk12|remove2|stat1/both-bound", Setup: two, Tasks: [][]SOp{{sop("walk", 1, p9p.Fid(2), []string{})}, {sop("remove", 2)}, {sop("stat", 1)}}},
+		{Name: "walk12|walk23|walk31/all-bound", Setup: three, Tasks: [][]SOp{{sop("walk", 1, p9p.Fid(2), []string{})}, {sop("walk", 2, p9p.Fid(3), []string{})}, {sop("walk", 3, p9p.Fid(1), []string{})}}},
 		// the same collisions with one file-system call failing somewhere
 		{Name: "clunk|read+fault", Setup: base, Tasks: [][]SOp{{sop("clunk", 1)}, {sop("read", 1)}}, Dev: 1},
 		{Name: "inplace-walk|clunk+fault", Setup: dir1, Tasks: [][]SOp{{sop("walk", 1, p9p.Fid(1), []string{"b"})}, {sop("clunk", 1)}}, Dev: 1},
@@ -391,7 +399,7 @@ func c14RaceScenario(sp c14Spec) *explore.Scenario {
 
 func c14(c *core.Ctx) {
 	c.Budget(100*time.Second, 14*time.Minute)
-	c.SetRule("scenarios: 2-3 client tasks x 1-2 session operations on a real SFileSys session over the mock file system, chosen to collide on one fid (clunk|read, clunk|stat, clunk|walk-from, remove|clone, in-place walk|stat, in-place walk|clunk, attach|attach, open|open, clunk|clunk, walk-new|clunk-new, create|stat, createdir|clunk, 2x2 mixes), optionally with one file-system call failing at every possible position; every interleaving at every lock / sync.Map / file-system-call entry+exit up to the bound. Oracle: all operations return; the mock never sees overlapping calls on one entry or use after release; no fid locked at quiescence; brute-force linearizability: some order consistent with real time reproduces every result and the final fid table (hook) in the reference fid table. outcome = multiset of results + witness order")
+	c.SetRule("scenarios: 2-3 client tasks x 1-2 session operations on a real SFileSys session over the mock file system, chosen to collide on one fid (clunk|read, clunk|stat, clunk|walk-from, remove|clone, in-place walk|stat, in-place walk|clunk, attach|attach, open|open, clunk|clunk, walk-new|clunk-new, create|stat, createdir|clunk, 2x2 mixes; walks naming another bound fid as their target, in a cycle of two and of three), optionally with one file-system call failing at every possible position; every interleaving at every lock / sync.Map / file-system-call entry+exit up to the bound. Oracle: all operations return; the mock never sees overlapping calls on one entry or use after release; no fid locked at quiescence; brute-force linearizability: some order consistent with real time reproduces every result and the final fid table (hook) in the reference fid table. outcome = multiset of results + witness order")
 	c.Assume("the client does not allocate one new fid from two requests at once (as the statement assumes)", "data-race freedom is decided by the race-mode run when available (coverage.race_mode)", "no state cache here: the mock file system is harness state shared between tasks")
 	var plans []Plan
 	for _, sp := range c14Specs() {
